@@ -24,4 +24,5 @@ func disabledFeatures() map[string]bool {
 	return d
 }
 
-var gatedOff = []string{"tag-switch-nonlast-default-fallthrough", "label-in-switch-clause"}
+// since the repairs ff01288 (F41) and 126ac4d (F43) no class is gated out
+var gatedOff = []string{}
